@@ -167,6 +167,26 @@ def md5_token(key):
     return abs(int.from_bytes(hashlib.md5(bytes(key)).digest(), 'big', signed=True))
 
 
+def md5_signed(key):
+    """The md5 digest as Java's `new BigInteger(byte[])` reads it: big-endian two's complement, so
+    negative when the top bit of the digest is set (RandomPartitioner's token is its absolute value)."""
+    return int.from_bytes(hashlib.md5(bytes(key)).digest(), 'big', signed=True)
+
+
+def hash_half(tclass, key):
+    """Which half of the partitioner's raw hash range a key falls in (1 = the half a signed reading
+    calls negative): md5 -> top bit of the digest, murmur3 -> sign of hash[0], bytes -> first byte
+    >= 0x80 (ByteOrderedPartitioner compares bytes unsigned)."""
+    key = bytes(key)
+    if tclass == 'md5':
+        return 1 if md5_signed(key) < 0 else 0
+    if tclass == 'murmur3':
+        return 1 if murmur3_raw(key) < 0 else 0
+    if tclass == 'bytes':
+        return 1 if key[:1] >= b'\x80' else 0
+    raise ValueError('unknown partitioner %r' % (tclass,))
+
+
 def bytes_token(key):
     """ByteOrderedPartitioner: the key bytes are the token."""
     return bytes(key)
